@@ -1000,6 +1000,17 @@ func (c *ctx) vecEv() {
 			ex := []float64{1e3, -1e3, 1e19, -1e19, 400, -400, 308, -330}
 			lo, hi = ex[g.Intn(len(ex))], ex[g.Intn(len(ex))]
 		}
+		if which != 2 && g.Chance(1, 8) {
+			// ranges at the ends of the double range: in the subnormals the
+			// spacing itself has almost no precision, so it must not be
+			// computed once and multiplied
+			k := []int{-1074, -1072, -1066, -1050, -1030, -1022, -1000, -500, 500, 900}[g.Intn(10)]
+			lo, hi = math.Ldexp(lo, k), math.Ldexp(hi, k)
+			if g.Chance(1, 3) {
+				lo = 0
+			}
+			c.probe("linspace_extreme_magnitude_range")
+		}
 		var lin []float64
 		if !c.try("vec.Linspace", "", func() { lin = vec.Linspace(lo, hi, num) }) {
 			return
@@ -1008,7 +1019,7 @@ func (c *ctx) vecEv() {
 			c.fail("vec", "vec.Linspace", "len", "Linspace(%v,%v,%d) has %d values", lo, hi, num, len(lin))
 			return
 		}
-		tol := 8 * refmodel.Eps * (math.Abs(lo) + math.Abs(hi))
+		tol := 8*refmodel.Eps*(math.Abs(lo)+math.Abs(hi)) + 2*math.SmallestNonzeroFloat64
 		for i, v := range lin {
 			want := lo
 			if num > 1 {
